@@ -29,6 +29,10 @@ type numTailG[T any] struct {
 	V T      `"=" @Num`
 	W string `( "," "," @Num )?`
 }
+// the captured text comes out of a mapper (Unquote), so it can be anything, the empty text included
+type numQuotedG[T any] struct {
+	V T `"=" @Str`
+}
 type namedI16 int16
 type namedF32 float32
 type namedI64 int64
@@ -37,6 +41,7 @@ type namedF64 float64
 
 var numLexer = lexer.MustSimple([]lexer.SimpleRule{
 	{"Num", `[0-9a-zA-Z_.+][0-9a-zA-Z_.+\-]*`},
+	{"Str", `"[^"]*"`},
 	{"Punct", `[=,\-]`},
 	{"Comment", `/\*[^*]*\*/`},
 	{"Whitespace", `\s+`},
@@ -89,6 +94,25 @@ func numCheck[T any](res *xResult, name, kind string, bits int) {
 	if err != nil {
 		res.violate("Build numTailG[%s]: %v", name, err)
 		return
+	}
+	pq, err := participle.Build[numQuotedG[T]](participle.Lexer(numLexer), participle.Elide("Whitespace", "Comment"), participle.Unquote("Str"))
+	if err != nil {
+		res.violate("Build numQuotedG[%s]: %v", name, err)
+		return
+	}
+	for _, text := range append([]string{"", " ", "-", "- 1"}, numTexts...) {
+		want, ok := numOracle(kind, bits, text)
+		input := `="` + text + `"`
+		res.Evaluations++
+		if !ok {
+			res.Distinct++
+		}
+		vq, err := pq.ParseString("f", input)
+		got := "<nil>"
+		if vq != nil {
+			got = fmt.Sprint(vq.V)
+		}
+		checkNum(res, name+" from an unquoted string", input, got, err, want, ok)
 	}
 	for _, text := range numTexts {
 		// a conversion error is reported as such, at the captured token, also when an optional part after it was
@@ -188,7 +212,7 @@ func checkNum(res *xResult, name, input, got string, err error, want string, ok 
 // TestVerif_C17_NumericOracle: numeric captures agree with strconv for every numeric kind.
 func TestVerif_C17_NumericOracle(t *testing.T) {
 	res := &xResult{Check: "numeric captures vs strconv", Property: "C17", Exhaustive: true,
-		Bound: fmt.Sprintf("%d texts (boundary values of every width, base prefixes, underscores, floats, junk) x {plain, '-' prefix token, '-' then elided whitespace, '-' then elided comment} x 17 field types (all int/uint/float kinds, named int16 / float32 / int64 / uint64 / float64), each as T, *T, []T filled by several captures, []T filled by one capture of three tokens, and T followed by optional groups that are entered and abandoned (lookahead 3)", len(numTexts)),
+		Bound: fmt.Sprintf("%d texts (boundary values of every width, base prefixes, underscores, floats, junk) x {plain, '-' prefix token, '-' then elided whitespace, '-' then elided comment} x 17 field types (all int/uint/float kinds, named int16 / float32 / int64 / uint64 / float64), each as T, *T, []T filled by several captures, []T filled by one capture of three tokens, T followed by optional groups that are entered and abandoned (lookahead 3), and T filled from a quoted string through Unquote (so also from the empty text and from text with spaces)", len(numTexts)),
 		Rule:  "distinct (field type, input) pairs; non-trivial = strconv rejects the text or several tokens are joined"}
 	_ = math.MaxInt8
 	_ = os.Getenv
